@@ -59,7 +59,9 @@ pub fn check(c: &Call, rep: &mut Report) {
         None => {
             // arguments that are valid and fit the frame must be encoded with the stated layout;
             // a refusal or a panic is not that encoding
-            if exp.outcome == Outcome::Ok {
+            if let (Some(why), Ok(Err(()))) = (exp.may_refuse, &obs.res) {
+                rep.class(&format!("unjudged:refused:{}", why));
+            } else if exp.outcome == Outcome::Ok {
                 let oc = match &obs.res {
                     Ok(Err(())) => "refused".to_string(),
                     Err(p) => format!("panic:{}", p.kind),
